@@ -6,6 +6,7 @@ its planted defect:
   R2  ConfigManager.get_profile looks the name up across all environments
   R3  EnvService.probe_environment lets a probe service select a profile
   R4  switch_environment does not check that the url is known; delete_environment never resets
+  R5  ConfigManager.update_profile rewrites the stored name keyed on the old name alone; AuthService stores a literal name
 """
 import sqlite3
 
@@ -36,6 +37,11 @@ class ConfigManager:
     def get_profile(self, name, env_url):
         with sqlite3.connect(self.db_path) as conn:
             return conn.execute("SELECT id, name FROM profiles WHERE name = ?", (name,)).fetchone()
+
+    def update_profile(self, profile, old_name):
+        with sqlite3.connect(self.db_path) as conn:
+            conn.execute("UPDATE settings SET value = ? WHERE key = 'current_profile' AND value = ?", (profile.name, old_name))
+            conn.execute("UPDATE profiles SET name = ? WHERE id = ?", (profile.name, profile.id))
 
     def delete_environment(self, api_url):
         with sqlite3.connect(self.db_path) as conn:
